@@ -52,12 +52,19 @@ func runEnvTimed(bm *bondmachine.Bondmachine, input func(port, k int) uint64, ma
 	nin, nout := bm.Inputs, bm.Outputs
 	res.Outs = make([][]uint64, nout)
 	res.Consumed = make([]int, nin)
-	inPhase := make([]int, nin) // 0: offering (valid high), 1: withdrawn, waiting for recv to fall
+	inPhase := make([]int, nin) // 0: offering (valid high), 1: withdrawn, waiting for recv to fall, 2: idle (serial environment)
 	inWait := make([]int, nin)
 	outWait := make([]int, nout)
+	gate := &serialGate{}
+	offering := make([]bool, nin)
 	for i := 0; i < nin; i++ {
+		if envSerial && i != 0 {
+			inPhase[i] = 2
+			continue
+		}
 		vm.Inputs_regs[i] = regVal(rsize, input(i, 0))
 		vm.InputsValid[i] = true
+		offering[i] = true
 	}
 	for t := 0; t < maxTicks; t++ {
 		if envSimTick != nil {
@@ -70,6 +77,7 @@ func runEnvTimed(bm *bondmachine.Bondmachine, input func(port, k int) uint64, ma
 			envSimTick(vm, false)
 		}
 		res.Ticks = t + 1
+		finished := -1
 		for i := 0; i < nin; i++ {
 			switch inPhase[i] {
 			case 0:
@@ -80,21 +88,30 @@ func runEnvTimed(bm *bondmachine.Bondmachine, input func(port, k int) uint64, ma
 					}
 					inWait[i] = 0
 					vm.InputsValid[i] = false
+					offering[i] = false
 					res.Consumed[i]++
 					inPhase[i] = 1
 				}
 			case 1:
 				if !vm.InputsRecv[i] {
-					vm.Inputs_regs[i] = regVal(rsize, input(i, res.Consumed[i]))
-					vm.InputsValid[i] = true
-					inPhase[i] = 0
+					inPhase[i] = 2
+					finished = i
 				}
+			}
+		}
+		gate.tick(inPhase, offering, finished)
+		for i := 0; i < nin; i++ {
+			if inPhase[i] == 2 && gate.mayOffer(i, inPhase, offering) {
+				vm.Inputs_regs[i] = regVal(rsize, input(i, res.Consumed[i]))
+				vm.InputsValid[i] = true
+				offering[i] = true
+				inPhase[i] = 0
 			}
 		}
 		done := want > 0
 		for o := 0; o < nout; o++ {
 			if vm.OutputsValid[o] && !vm.OutputsRecv[o] {
-				if outWait[o] < ackDelay {
+				if outWait[o] < ackDelayOf(o, ackDelay) {
 					outWait[o]++
 				} else {
 					outWait[o] = 0
@@ -113,6 +130,59 @@ func runEnvTimed(bm *bondmachine.Bondmachine, input func(port, k int) uint64, ma
 		}
 	}
 	return res, nil
+}
+
+// envSerial: the environment offers its inputs one at a time.  Input `turn` is offered first; an offer
+// that is not taken within serialPatience ticks stays up and the turn passes on, but while an accepted
+// value's handshake is being completed (valid lowered, waiting for received to fall) nothing new is
+// offered: a protocol-abiding environment may wait for that as long as it takes.
+var envSerial bool
+
+// envAckOddOnly: the acknowledge delay applies to the odd-numbered external outputs only (the even
+// ones are acknowledged at once): consumers of one producer that are not in lock step.
+var envAckOddOnly bool
+
+func ackDelayOf(o, ackDelay int) int {
+	if envAckOddOnly && o%2 == 0 {
+		return 0
+	}
+	return ackDelay
+}
+
+const serialPatience = 40
+
+// serialGate decides, for the serial environment, which inputs may start a new offer in this tick.
+type serialGate struct {
+	turn, waited int
+}
+
+func (g *serialGate) mayOffer(i int, phase []int, offering []bool) bool {
+	if !envSerial {
+		return true
+	}
+	for _, ph := range phase {
+		if ph == 1 { // some handshake is being completed
+			return false
+		}
+	}
+	return i == g.turn
+}
+
+// tick advances the turn: past an input whose offer is up and untaken for too long, or whose handshake is over.
+func (g *serialGate) tick(phase []int, offering []bool, finished int) {
+	if !envSerial || len(phase) == 0 {
+		return
+	}
+	if finished >= 0 && finished == g.turn {
+		g.turn, g.waited = (g.turn+1)%len(phase), 0
+		return
+	}
+	if offering[g.turn] {
+		g.waited++
+		if g.waited > serialPatience {
+			g.turn, g.waited = (g.turn+1)%len(phase), 0
+		}
+	}
 }
 
 // hdlClockHook, when set, is called after every clock of runEnvHdl (used to record per-clock state).
@@ -143,9 +213,16 @@ func runEnvHdl(sim *vlog.Sim, nin, nout int, input func(port, k int) uint64, max
 	inWait := make([]int, nin)
 	outWait := make([]int, nout)
 	outRecv := make([]bool, nout)
+	gate := &serialGate{}
+	offering := make([]bool, nin)
 	for i := 0; i < nin; i++ {
+		if envSerial && i != 0 {
+			inPhase[i] = 2
+			continue
+		}
 		sim.Set(fmt.Sprintf("i%d", i), input(i, 0))
 		sim.Set(fmt.Sprintf("i%d_valid", i), 1)
+		offering[i] = true
 	}
 	for t := 0; t < maxClocks; t++ {
 		if hdlPreClockHook != nil {
@@ -158,6 +235,7 @@ func runEnvHdl(sim *vlog.Sim, nin, nout int, input func(port, k int) uint64, max
 		if hdlClockHook != nil {
 			hdlClockHook(sim)
 		}
+		finished := -1
 		for i := 0; i < nin; i++ {
 			recv := get(fmt.Sprintf("i%d_received", i)) == 1
 			switch inPhase[i] {
@@ -169,22 +247,31 @@ func runEnvHdl(sim *vlog.Sim, nin, nout int, input func(port, k int) uint64, max
 					}
 					inWait[i] = 0
 					sim.Set(fmt.Sprintf("i%d_valid", i), 0)
+					offering[i] = false
 					res.Consumed[i]++
 					inPhase[i] = 1
 				}
 			case 1:
 				if !recv {
-					sim.Set(fmt.Sprintf("i%d", i), input(i, res.Consumed[i]))
-					sim.Set(fmt.Sprintf("i%d_valid", i), 1)
-					inPhase[i] = 0
+					inPhase[i] = 2
+					finished = i
 				}
+			}
+		}
+		gate.tick(inPhase, offering, finished)
+		for i := 0; i < nin; i++ {
+			if inPhase[i] == 2 && gate.mayOffer(i, inPhase, offering) {
+				sim.Set(fmt.Sprintf("i%d", i), input(i, res.Consumed[i]))
+				sim.Set(fmt.Sprintf("i%d_valid", i), 1)
+				offering[i] = true
+				inPhase[i] = 0
 			}
 		}
 		done := want > 0
 		for o := 0; o < nout; o++ {
 			valid := get(fmt.Sprintf("o%d_valid", o)) == 1
 			if valid && !outRecv[o] {
-				if outWait[o] < ackDelay {
+				if outWait[o] < ackDelayOf(o, ackDelay) {
 					outWait[o]++
 				} else {
 					outWait[o] = 0
